@@ -38,7 +38,7 @@ pub const PROPS: &[PropSpec] = &[
         rule: "non-trivial: a channeled subscriber received >=1 notification and its queue was full at least once or it was unsubscribed/stopped with items queued" },
     PropSpec { id: "C11", families: &[("eff", 7), ("stop", 3)], borrowed: &[("C13", "eff")], quick_runs: 96_000,
         rule: "non-trivial: >=1 effect ran while the reducer thread was inside a later pipeline, or stop() was invoked with effects outstanding" },
-    PropSpec { id: "C12", families: &[("mw", 10)], borrowed: &[("C01", "mw"), ("C03", "mw"), ("C07", "mw")], quick_runs: 96_000,
+    PropSpec { id: "C12", families: &[("mw", 10)], borrowed: &[("C01", "mw"), ("C03", "mw"), ("C07", "mw"), ("C11", "mw")], quick_runs: 96_000,
         rule: "non-trivial: some hook returned a verdict other than Continue" },
     PropSpec { id: "C13", families: &[("api", 6), ("eff", 2), ("sub", 1), ("stop", 1)], borrowed: &[], quick_runs: 96_000,
         rule: "non-trivial: >=2 client threads had public API calls overlapping in time, one of them a shutdown, subscription or iterator operation" },
